@@ -87,6 +87,36 @@ impl Tok for u32 {
         u32::try_from(p.n()?).ok()
     }
 }
+macro_rules! tok_int {
+    ($t:ty, $u:ty) => {
+        impl Tok for $t {
+            fn show(&self, out: &mut Toks) {
+                sn(out, (*self as $u) as u64)
+            }
+            fn parse(p: &mut P) -> Option<Self> {
+                Some(<$u>::try_from(p.n()?).ok()? as $t)
+            }
+        }
+    };
+}
+tok_int!(u16, u16);
+tok_int!(u64, u64);
+tok_int!(i8, u8);
+tok_int!(i16, u16);
+tok_int!(i32, u32);
+tok_int!(i64, u64);
+impl Tok for bool {
+    fn show(&self, out: &mut Toks) {
+        sn(out, *self as u64)
+    }
+    fn parse(p: &mut P) -> Option<Self> {
+        match p.n()? {
+            0 => Some(false),
+            1 => Some(true),
+            _ => None,
+        }
+    }
+}
 impl Tok for Hash {
     fn show(&self, out: &mut Toks) {
         sb(out, &self.0)
@@ -644,6 +674,13 @@ pub fn run(op: &str, args: &[&str]) -> Option<String> {
         "varint" => plain!(op, rest, VarInt),
         "u8" => plain!(op, rest, u8),
         "u32" => plain!(op, rest, u32),
+        "u16" => plain!(op, rest, u16),
+        "u64" => plain!(op, rest, u64),
+        "i8" => plain!(op, rest, i8),
+        "i16" => plain!(op, rest, i16),
+        "i32" => plain!(op, rest, i32),
+        "i64" => plain!(op, rest, i64),
+        "bool" => plain!(op, rest, bool),
         "hash" => plain!(op, rest, Hash),
         "hash8" => plain!(op, rest, Hash8),
         "key64" => plain!(op, rest, Key64),
